@@ -157,6 +157,7 @@ type Op struct {
 }
 
 type Res struct {
+	Msg   string
 	C     string
 	Id    string
 	Val   interface{}
@@ -166,6 +167,13 @@ type Res struct {
 }
 
 // Classify maps an error to the class the specification speaks of.
+func (r *Res) set(err error) string {
+	if err != nil {
+		r.Msg = err.Error()
+	}
+	return Classify(err)
+}
+
 func Classify(err error) string {
 	if err == nil {
 		return "ok"
@@ -272,53 +280,53 @@ func (w *World) Do(op Op) Res {
 	switch op.Op {
 	case "AddFact":
 		id, err := loc.AddFact(ctx, op.Id, core.Map(val))
-		res.C, res.Id = Classify(err), id
+		res.C, res.Id = res.set(err), id
 	case "RemFact":
 		_, err := loc.RemFact(ctx, op.Id)
-		res.C = Classify(err)
+		res.C = res.set(err)
 	case "GetFact":
 		m, err := loc.GetFact(ctx, op.Id)
-		res.C = Classify(err)
+		res.C = res.set(err)
 		if err == nil {
 			res.Val = deepCopy(map[string]interface{}(m))
 		}
 	case "SearchFacts":
 		srs, err := loc.SearchFacts(ctx, core.Map(val), op.Inh)
-		res.C = Classify(err)
+		res.C = res.set(err)
 		if err == nil {
 			res.Found = w.encFound(srs)
 		}
 	case "AddRule":
 		id, err := loc.AddRule(ctx, op.Id, core.Map(val))
-		res.C, res.Id = Classify(err), id
+		res.C, res.Id = res.set(err), id
 	case "RemRule":
 		_, err := loc.RemRule(ctx, op.Id)
-		res.C = Classify(err)
+		res.C = res.set(err)
 	case "GetRule":
 		m, err := loc.GetRule(ctx, op.Id)
-		res.C = Classify(err)
+		res.C = res.set(err)
 		if err == nil {
 			res.Val = deepCopy(map[string]interface{}(m))
 		}
 	case "EnableRule":
-		res.C = Classify(loc.EnableRule(ctx, op.Id, op.Flag))
+		res.C = res.set(loc.EnableRule(ctx, op.Id, op.Flag))
 	case "SetParents":
 		_, err := loc.SetParents(ctx, op.Names)
-		res.C = Classify(err)
+		res.C = res.set(err)
 	case "GetParents":
 		ps, err := loc.GetParents(ctx)
-		res.C, res.Ids = Classify(err), ps
+		res.C, res.Ids = res.set(err), ps
 	case "Clear":
-		res.C = Classify(loc.Clear(ctx))
+		res.C = res.set(loc.Clear(ctx))
 	case "StateSize":
 		n, err := loc.StateSize(ctx)
-		res.C, res.N = Classify(err), n
+		res.C, res.N = res.set(err), n
 	case "ListRules":
 		ids, err := loc.ListRules(ctx, op.Inh)
-		res.C, res.Ids = Classify(err), ids
+		res.C, res.Ids = res.set(err), ids
 	case "SearchRules":
 		rs, err := loc.SearchRules(ctx, core.Map(val), op.Inh)
-		res.C = Classify(err)
+		res.C = res.set(err)
 		for id := range rs {
 			res.Ids = append(res.Ids, id)
 		}
@@ -326,6 +334,9 @@ func (w *World) Do(op Op) Res {
 		fr, cond := loc.ProcessEvent(ctx, core.Map(val))
 		if fr == nil || fr.Disposition == nil || fr.Disposition.Msg != "complete" {
 			res.C = "error"
+			if fr != nil && fr.Disposition != nil {
+				res.Msg = fr.Disposition.Msg
+			}
 		}
 		_ = cond
 		if res.C == "ok" {
@@ -360,6 +371,10 @@ func (w *World) Do(op Op) Res {
 	after := time.Now().Unix()
 
 	t := w.R.T
+	// expiry instants the specification computes from now + ttl
+	for d := int64(-5); d <= 20; d++ {
+		t.Encode(float64(now + d))
+	}
 	t.NoteString(op.Id)
 	t.NoteString(res.Id)
 	t.NoteString(op.WK)
@@ -387,7 +402,7 @@ func (w *World) Do(op Op) Res {
 		"inh": op.Inh, "wk": op.WK, "rk": op.RK, "now": now, "flag": op.Flag, "names": names,
 		"res": map[string]interface{}{"c": res.C, "id": res.Id, "val": t.Encode(res.Val),
 			"found": found, "ids": ids, "n": res.N},
-		"disk": w.diskIds(),
+		"disk": w.diskIds(), "msg": res.Msg,
 	}
 	if after != now {
 		ev["void"] = true // crossed a second boundary: the caller discards the trace
